@@ -1,7 +1,7 @@
 #!/bin/sh
 # run every claimed check (tier = $1, default quick) and summarise
 T=${1:-quick}
-cd /verif
+cd "$(dirname "$0")/.."
 for p in $(/venv/bin/python -c "import json;print(' '.join(c['property_id'] for c in json.load(open('MANIFEST.json'))['checks']))"); do
   cmd=$(/venv/bin/python -c "import json,sys;print([c for c in json.load(open('MANIFEST.json'))['checks'] if c['property_id']=='$p'][0]['${T}_cmd'])")
   s=$(date +%s)
